@@ -286,7 +286,7 @@ Fixpoint covers_walk (fuel : nat) (l : rng) (sg : seg) (cur : pt) (curd : Z) : o
   | S f =>
       let '(best, bestd) := covers_step l sg cur curd in
       if dotp (fst sg) (snd sg) (snd sg) <=? bestd then Some true
-      else if pt_eqb best cur then Some false
+      else if negb (curd <? bestd) then Some false
       else covers_walk f l sg best bestd
   end.
 
